@@ -311,28 +311,32 @@ func genField(t *rapid.T, idx int) Field {
 	allFns := []string{"lag", "lag", "lag", "latest", "latest", "had_changed", "had_changed", "changed_col", "changed_col",
 		"acc_sum", "acc_count", "acc_avg", "acc_min", "acc_max"}
 	switch {
-	case k < 52:
+	case k < 26 || k >= 74:
 		f = Field{Kind: "plain", Calls: []Call{genCall(t, label, allFns, false)}}
-	case k < 62:
+	case k < 36:
 		f = Field{Kind: "col-minus", Col: numCol(t, label+"left"), Calls: []Call{genCall(t, label, numericFns, true)}}
-	case k < 66:
+	case k < 40:
 		f = Field{Kind: "const-minus", Calls: []Call{genCall(t, label, numericFns, true)}}
-	case k < 71:
+	case k < 45:
 		f = Field{Kind: "coalesce", Calls: []Call{genCall(t, label, []string{"lag", "latest", "acc_avg", "acc_max"}, true)}}
-	case k < 75:
+	case k < 49:
 		f = Field{Kind: "case", N: rapid.IntRange(-1, 3).Draw(t, label+"thr"), Calls: []Call{genCall(t, label, numericFns, true)}}
-	case k < 92:
+	case k < 66:
 		col := numCol(t, label+"acccol")
 		var start *Cond
 		if rapid.IntRange(0, 3).Draw(t, label+"accstart") == 0 {
 			start = genCond(t, label+"st")
 		}
 		switch {
-		case k < 81:
+		case k < 55:
 			f = Field{Kind: "maxmin", Calls: []Call{accCall("acc_max", col, start), accCall("acc_min", col, start)}}
-		case k < 85:
+		case k < 59:
 			f = Field{Kind: "sum3", Calls: []Call{accCall("acc_max", col, start), accCall("acc_min", col, start), accCall("acc_sum", col, nil)}}
-		case k < 88:
+			if pbt.Open("C14", "plus-chain-null") {
+				// keep the '+' chain, over calls that never return NULL
+				f.Calls = []Call{accCall("acc_sum", col, start), accCall("acc_count", col, start), accCall("acc_sum", "w", nil)}
+			}
+		case k < 62:
 			f = Field{Kind: "prod", Calls: []Call{accCall("acc_max", col, nil), accCall("acc_min", col, start)}}
 		default:
 			f = Field{Kind: "mix", Calls: []Call{accCall("acc_max", col, nil), accCall("acc_min", col, nil), accCall("acc_sum", col, start)}}
@@ -366,18 +370,18 @@ func subset(t *rapid.T, label string, cols []string) []string {
 func genWhere(t *rapid.T) *Where {
 	k := rapid.IntRange(0, 99).Draw(t, "where")
 	switch {
-	case k < 35:
+	case k < 2 || k >= 84:
 		return nil
-	case k < 55:
+	case k < 22:
 		return &Where{Kind: "plain", Cond: genCond(t, "wh_")}
-	case k < 72:
+	case k < 46:
 		fns := []string{"lag", "lag", "latest", "changed_col", "acc_count", "acc_sum", "acc_max"}
 		call := genCall(t, "wh_", fns, true)
 		return &Where{Kind: "cmp", Call: &call, Op: rapid.SampledFrom(ops).Draw(t, "wh_op"), N: rapid.IntRange(-1, 4).Draw(t, "wh_n")}
-	case k < 80:
+	case k < 58:
 		call := genCall(t, "wh_", []string{"had_changed", "changed_col"}, false)
 		return &Where{Kind: "bare", Call: &call}
-	case k < 88:
+	case k < 68:
 		call := genCall(t, "wh_", []string{"had_changed"}, false)
 		return &Where{Kind: "eqbool", Call: &call, Eq: rapid.SampledFrom([]string{"=", "=="}).Draw(t, "wh_eq"), Lit: rapid.IntRange(0, 3).Draw(t, "wh_lit") != 0}
 	default:
@@ -481,7 +485,7 @@ func genCase(t *rapid.T) Case {
 	// pool of partition tuples, rows pick from it at random (=> arbitrary interleaving)
 	npool := 1
 	if npc > 0 {
-		npool = rapid.IntRange(1, 6).Draw(t, "npartitions")
+		npool = rapid.SampledFrom([]int{1, 2, 3, 2, 3, 4, 5, 6}).Draw(t, "npartitions")
 	}
 	pool := make([][]gen.Val, npool)
 	for i := range pool {
@@ -491,7 +495,7 @@ func genCase(t *rapid.T) Case {
 		}
 	}
 	allowMissing := !pbt.Open("C14", "missing-value")
-	n := rapid.IntRange(0, 40).Draw(t, "nrows")
+	n := rapid.SampledFrom([]int{0, 6, 12, 6}).Draw(t, "nrows_base") + rapid.IntRange(0, 28).Draw(t, "nrows")
 	for i := 0; i < n; i++ {
 		r := gen.Row{"id": gen.Int(int64(i))}
 		tu := pool[rapid.IntRange(0, npool-1).Draw(t, "pick")]
